@@ -557,6 +557,12 @@ def call_py(ex, obj, name, node, st):
         return VTuple([VInt(r)])
     if obj is builtins.len:
         (a,), _ = ex.eval_args(node, st)
+        if isinstance(a, VObj) and a.cls == "strs":
+            n_ = uf(ex, "LEN_STRS", I, I)(a.attrs["_id"])
+            st.fact(z3.And(n_ >= 0, (n_ != 0) == a.attrs["_truthy"]))
+            return VInt(n_)
+        if isinstance(a, VPy) and isinstance(a.obj, dict) and not a.obj:
+            return VInt(0)
         if isinstance(a, (VBytes, VStr)):
             return VInt(z3.Length(a.z))
         if isinstance(a, VList):
